@@ -9,7 +9,8 @@ EXTENDS Integers, Sequences, FiniteSets, TLC, Json, Randomization
 CONSTANTS MaxEx,
           SeqSample,         \* number of random exchange sequences to generate
           BugTrailerCRLF,    \* writeHeaderOnlyResponse without CRLF after the Trailer line
-          BugUncompressed    \* transport-decompressed reply of unknown length written without any framing
+          BugUncompressed,   \* transport-decompressed reply of unknown length written without any framing
+          ChunkedTo10        \* as found: the chunked coding is used whatever the client's protocol version
 
 Methods == {"GET", "HEAD", "POST", "PUT", "DELETE", "OPTIONS", "PURGE"}
 BodyMethods == {"POST", "PUT", "DELETE", "PURGE"}
@@ -27,10 +28,14 @@ Reqs == { r \in [m : Methods, ver : {10, 11}, copt : {"none", "close", "ka"}, bo
 \* what the origin sends back
 Ups == { u \in [st : {200, 201, 204, 304, 404, 500, 503, 299}, fr : {"cl", "chunked", "eof"}, tr : BOOLEAN, gz : BOOLEAN,
                 sse : BOOLEAN, sz : 1..3, hop : BOOLEAN, cookies : BOOLEAN, ver : {10, 11},
-                early : BOOLEAN] :     \* the origin answers and hangs up without reading the request body
+                early : BOOLEAN,       \* the origin answers and hangs up without reading the request body
+                ev : {"lf", "crlf", "cr", "comment"}] :   \* event streams: line ending of the events; "comment" = the first thing
+                                                           \* sent is a comment line (a heartbeat) in a chunk of its own, no blank line
+            /\ (u.ev # "lf" => u.sse) /\ (u.ev = "comment" => u.fr = "chunked")
             \* (an early reply that is delimited by the origin hanging up, while the upload may still be under way, is a
             \*  fault scenario - C12 - with more than one acceptable outcome: early replies are self-delimiting and the
             \*  origin carries on with the connection)
+            \* (the harness lets the origin read the body first when the request itself ends the connection)
             /\ (u.early => ~u.sse /\ ~u.tr /\ u.fr # "eof" /\ u.ver = 11)
             /\ (u.tr => u.fr = "chunked")                       \* trailers need the chunked coding
             /\ (u.ver = 10 => u.fr # "chunked" /\ ~u.hop)        \* an HTTP/1.0 origin: Content-Length or close, then it hangs up
@@ -53,6 +58,9 @@ Wire(r, u, closing) ==
   IF r.refused THEN [head |-> "ok", fr |-> "cl", close |-> close]          \* the proxy's own 403
   ELSE IF HeaderOnly(r, u) THEN
        [head |-> IF u.tr /\ BugTrailerCRLF THEN "unterminated" ELSE "ok", fr |-> "none", close |-> close]
+  \* an HTTP/1.0 client does not know the chunked coding: a body whose length is not announced is delimited by the close
+  ELSE IF r.ver = 10 /\ (u.fr # "cl" \/ Undone(r, u)) THEN
+       IF ChunkedTo10 THEN [head |-> "ok", fr |-> "chunked", close |-> close] ELSE [head |-> "ok", fr |-> "raw", close |-> TRUE]
   ELSE IF Undone(r, u) /\ u.fr # "chunked" THEN          \* length no longer known
        IF BugUncompressed THEN [head |-> "ok", fr |-> "raw", close |-> close]
        ELSE [head |-> "ok", fr |-> "selfdelim", close |-> close]   \* chunked, or raw + close: harness accepts both
@@ -81,12 +89,12 @@ Drop == /\ phase = "dropped" /\ phase' = "idle" /\ alive' = FALSE /\ inflight' =
 Respond(u, wfault) ==
   /\ phase = "handling"
   /\ LET w == Wire(req, u, closing) IN
-     /\ wire' = Append(wire, [k |-> k, head |-> w.head, fr |-> w.fr, close |-> w.close \/ wfault])
+     /\ wire' = Append(wire, [k |-> k, head |-> w.head, fr |-> w.fr, close |-> w.close \/ wfault, cver |-> req.ver])
      /\ alive' = ~(w.close \/ wfault)
   /\ nWrote' = nWrote + 1 /\ inflight' = inflight - 1 /\ phase' = "idle"
   /\ UNCHANGED <<k, req, closing, nRead>>
 \* a smaller response alphabet keeps the exhaustive run small; the generator below uses all of Ups
-McUps == {u \in Ups : u.st \in {200, 204} /\ ~u.sse /\ ~u.hop /\ ~u.cookies /\ u.sz = (IF u.gz THEN 2 ELSE 1) /\ ~u.early}
+McUps == {u \in Ups : u.ev = "lf" /\ u.st \in {200, 204} /\ ~u.sse /\ ~u.hop /\ ~u.cookies /\ u.sz = (IF u.gz THEN 2 ELSE 1) /\ ~u.early}
 McReqs == {r \in Reqs : r.m \in {"GET", "HEAD", "POST"} /\ r.sz = 1 /\ r.ae # "br"}
 Next == Shutdown \/ Drop \/ (\E r \in McReqs : Read(r)) \/ (\E u \in McUps, wf \in BOOLEAN : Respond(u, wf))
 Spec == Init /\ [][Next]_vars
@@ -94,6 +102,8 @@ Spec == Init /\ [][Next]_vars
 \* C02: what a conforming client parser needs
 HeadTerminated        == \A i \in 1..Len(wire) : wire[i].head = "ok"
 SelfDelimitingOrClose == \A i \in 1..Len(wire) : wire[i].fr = "raw" => wire[i].close
+\* what is sent can be parsed by a client of the version that asked
+ParsableByClient      == \A i \in 1..Len(wire) : wire[i].fr = "chunked" => wire[i].cver = 11
 KthAnswersKth         == \A i \in 1..Len(wire) : wire[i].k = i
 NothingAfterClose     == \A i \in 1..Len(wire) : wire[i].close => i = Len(wire)
 \* C13: exactly one completion report per request read
